@@ -199,3 +199,25 @@ package client
 //@        val(nonce) == nonceOf(as(prop, "*VirtualChannelProposalMsg").NonceShare, as(acc, "*VirtualChannelProposalAccMsg").NonceShare)) &&
 //@     (istype(prop, "*SubChannelProposalMsg") ==> challengeDuration == as(prop, "*SubChannelProposalMsg").ChallengeDuration && !ledger && !virtual &&
 //@        val(nonce) == nonceOf(as(prop, "*SubChannelProposalMsg").NonceShare, as(acc, "*SubChannelProposalAccMsg").NonceShare))
+
+// ---------------------------------------------------------------------------
+// Update handling (C12, C07)
+// ---------------------------------------------------------------------------
+
+// What the decoders guarantee for update messages (proved as postconditions of the decoders).
+//@ pred updDecoded(u *ChannelUpdateMsg) = u != nil && stateDecoded(u.State)
+//@ pred paramsDecoded(p *channel.Params) = p != nil && len(p.Parts) >= 2 && len(p.Parts) <= channel.MaxNumParts && partsNonNil(p.Parts) && p.App != nil
+//@ pred signedDecoded(s channel.SignedState) = paramsDecoded(s.Params) && stateDecoded(s.State) && len(s.Sigs) == len(s.State.Balances[0])
+//@ pred fundPropDecoded(p *VirtualChannelFundingProposalMsg) = p != nil && updDecoded(&p.ChannelUpdateMsg) && signedDecoded(p.Initial)
+//@ pred settlePropDecoded(p *VirtualChannelSettlementProposalMsg) = p != nil && updDecoded(&p.ChannelUpdateMsg) && signedDecoded(p.Final)
+
+//@ func (*Client).validateVirtualChannelFundingProposal
+//@   requires c != nil && chanWF(ch) && fundPropDecoded(prop)
+
+//@ func (*Client).validateVirtualChannelSettlementProposal
+//@   requires c != nil && chanWF(parent) && settlePropDecoded(prop)
+
+//@ func validIndexMap
+//@   ensures result <==> len(indexMap) == numParts && forall k int :: 0 <= k && k < len(indexMap) ==> indexMap[k] < numPartsParent
+//@   loop 1
+//@     invariant forall k int :: 0 <= k && k < $i ==> indexMap[k] < numPartsParent
